@@ -54,6 +54,11 @@ func (e *Engine) binopTerms(op token.Token, l, r Val, operandType types.Type, di
 		if !ok {
 			return Term{}, false
 		}
+		for _, v := range []Val{l, r} {
+			if ff, ok := v.Ext.(*FloatFlags); ok && ff != nil {
+				t = and(not(ff.NaN), t) // NaN == x is false
+			}
+		}
 		if op == token.NEQ {
 			t = not(t)
 		}
@@ -106,7 +111,14 @@ func (e *Engine) binopTerms(op token.Token, l, r Val, operandType types.Type, di
 				return not(app(SBool, "str.lt", lt, rt)), true
 			}
 		}
-		return app(SBool, o, lt, rt), true
+		cmp := app(SBool, o, lt, rt)
+		// a float that may be NaN (result of strconv.ParseFloat): every ordered comparison with NaN is false
+		for _, v := range []Val{l, r} {
+			if ff, ok := v.Ext.(*FloatFlags); ok && ff != nil {
+				cmp = and(not(ff.NaN), cmp)
+			}
+		}
+		return cmp, true
 	case token.LAND:
 		return and(lt, rt), true
 	case token.LOR:
@@ -583,6 +595,105 @@ func (e *Engine) constGlobal(g *ssa.Global) (Val, bool) {
 		return v, true
 	}
 	return Val{}, false
+}
+
+// constSliceGlobal: a package-level slice initialised by a literal of constants in the package initialiser and
+// never assigned elsewhere (element writes through a copy of the header are not detected: assumption A6). The value
+// carries its elements, so membership tests (go2.Contains) are decided.
+func (e *Engine) constSliceGlobal(g *ssa.Global) (Val, bool) {
+	et := g.Type().(*types.Pointer).Elem()
+	sl, ok := et.Underlying().(*types.Slice)
+	if !ok || g.Pkg == nil {
+		return Val{}, false
+	}
+	if len(e.layout(sl.Elem())) != 1 {
+		return Val{}, false
+	}
+	initFn := g.Pkg.Func("init")
+	if initFn == nil {
+		return Val{}, false
+	}
+	var arr *ssa.Alloc
+	nStores := 0
+	for _, b := range initFn.Blocks {
+		for _, in := range b.Instrs {
+			if s, ok := in.(*ssa.Store); ok && s.Addr == ssa.Value(g) {
+				nStores++
+				val := s.Val
+				// naive form: the literal is first stored in a temporary and loaded again
+				if u, ok := val.(*ssa.UnOp); ok && u.Op == token.MUL {
+					if tmp, ok := u.X.(*ssa.Alloc); ok {
+						for _, b2 := range initFn.Blocks {
+							for _, in2 := range b2.Instrs {
+								if s2, ok := in2.(*ssa.Store); ok && s2.Addr == ssa.Value(tmp) {
+									val = s2.Val
+								}
+							}
+						}
+					}
+				}
+				if slc, ok := val.(*ssa.Slice); ok && slc.Low == nil && slc.High == nil {
+					if al, ok := slc.X.(*ssa.Alloc); ok {
+						arr = al
+					}
+				}
+			}
+		}
+	}
+	if arr == nil || nStores != 1 {
+		return Val{}, false
+	}
+	// no other assignment of the variable in its package (exported variables: other packages are not scanned)
+	stores := 0
+	var dummy *ssa.Const
+	for _, m := range g.Pkg.Members {
+		if fn, ok := m.(*ssa.Function); ok && fn != initFn {
+			e.scanStores(fn, g, &stores, &dummy)
+		}
+	}
+	if stores != 0 {
+		return Val{}, false
+	}
+	at, ok := arr.Type().(*types.Pointer).Elem().Underlying().(*types.Array)
+	if !ok || at.Len() > 256 {
+		return Val{}, false
+	}
+	elems := make([]Val, at.Len())
+	filled := 0
+	for _, b := range initFn.Blocks {
+		for _, in := range b.Instrs {
+			s, ok := in.(*ssa.Store)
+			if !ok {
+				continue
+			}
+			ia, ok := s.Addr.(*ssa.IndexAddr)
+			if !ok || ia.X != ssa.Value(arr) {
+				continue
+			}
+			ic, ok1 := ia.Index.(*ssa.Const)
+			vc, ok2 := s.Val.(*ssa.Const)
+			if !ok1 || !ok2 {
+				return Val{}, false
+			}
+			k := int(ic.Int64())
+			if k < 0 || k >= len(elems) {
+				return Val{}, false
+			}
+			elems[k] = e.constVal(vc)
+			elems[k].Typ = sl.Elem()
+			filled++
+		}
+	}
+	if filled != len(elems) {
+		return Val{}, false
+	}
+	n := intLit(int64(len(elems)))
+	ref := e.cur.log.declConst("g.arr."+sanitize(g.Pkg.Pkg.Name()+"."+g.Name()), SInt)
+	e.cur.log.assert(app(SBool, ">", ref, intLit(0)))
+	if e.cur.discovery == 0 {
+		e.cur.externsUsed["A6 constant package slice: "+g.Pkg.Pkg.Name()+"."+g.Name()] = true
+	}
+	return Val{Typ: et, T: []Term{ref, intLit(0), n, n}, Ext: &KnownSlice{Elems: elems}}, true
 }
 
 func (e *Engine) scanStores(fn *ssa.Function, g *ssa.Global, stores *int, initVal **ssa.Const) {
